@@ -264,9 +264,6 @@ func genCKey(r *vh.Rng, guarded bool, nops int) Case {
 			}
 		}
 		k := "key"
-		if r.Chance(1, 4) {
-			k = "hash"
-		}
 		c.Ops = append(c.Ops, Op{K: k, B: b})
 	}
 	return c
@@ -295,6 +292,102 @@ func ckeyFamilies(r *vh.Rng) []Case {
 		out = append(out, c)
 	}
 	return out
+}
+
+// maxCircuitID: MAX_CIRCUIT_ID_LEN of bpf/maps.h, the longest circuit-id a relay option can carry into the maps
+const maxCircuitID = 64
+
+// a stem without zero bytes whose bytes stay non-zero when their lowest bit is flipped
+func ckeyStem(r *vh.Rng, n int, ascii bool) []byte {
+	b := make([]byte, n)
+	for i := range b {
+		if ascii {
+			b[i] = "olt-17/pon-3/onu-42/gem-4:vlan.1010_svc"[(i*7+i/5)%39]
+		} else {
+			b[i] = byte(2 + r.Intn(254))
+		}
+	}
+	return b
+}
+
+// x and its neighbours that differ in exactly the first / a middle / the last byte
+func neighbours(x []byte) [][]byte {
+	out := [][]byte{append([]byte(nil), x...)}
+	seen := map[int]bool{}
+	for _, i := range []int{0, len(x) / 2, len(x) - 1} {
+		if i < 0 || i >= len(x) || seen[i] {
+			continue
+		}
+		seen[i] = true
+		y := append([]byte(nil), x...)
+		y[i] ^= 1
+		out = append(out, y)
+	}
+	return out
+}
+
+// HashCircuitID and MakeCircuitIDKey on EVERY length 0..MAX+2, each with its one-byte neighbours; hashes and
+// keys in separate short cases, so that a known key collision (beyond 32 bytes) never hides a later step.
+// guarded = no rejection expected (all hashes; keys of at most 32 bytes)
+func ckeyBoundaryFamilies(r *vh.Rng, thorough bool) (guarded, defect []Case) {
+	stems := [][]byte{ckeyStem(r, maxCircuitID+2, true), ckeyStem(r, maxCircuitID+2, false)}
+	if thorough {
+		for i := 0; i < 6; i++ {
+			stems = append(stems, ckeyStem(r, maxCircuitID+2, false))
+		}
+	}
+	for _, stem := range stems {
+		all := Case{Comp: "ckey", Note: "hash of every prefix 0..MAX+2 of one stem"}
+		for l := 0; l <= maxCircuitID+2; l++ {
+			all.Ops = append(all.Ops, Op{K: "hash", B: append([]byte(nil), stem[:l]...)})
+			h := Case{Comp: "ckey", Note: fmt.Sprintf("hash: length %d and its one-byte neighbours", l)}
+			k := Case{Comp: "ckey", Note: fmt.Sprintf("key: length %d and its one-byte neighbours", l)}
+			for _, x := range neighbours(stem[:l]) {
+				h.Ops = append(h.Ops, Op{K: "hash", B: x})
+				k.Ops = append(k.Ops, Op{K: "key", B: x})
+			}
+			guarded = append(guarded, h)
+			if l <= 32 {
+				guarded = append(guarded, k)
+			} else {
+				defect = append(defect, k)
+			}
+		}
+		guarded = append(guarded, all)
+	}
+	return
+}
+
+// random hash-only histories, lengths biased to the boundaries of the key (32) and of the option (64)
+func genCHash(r *vh.Rng, nops int) Case {
+	c := Case{Comp: "ckey", Note: "hashes only"}
+	edge := []int{0, 1, 31, 32, 33, 62, 63, 64, 65, 66, 80}
+	var prev []byte
+	for i := 0; i < nops; i++ {
+		var b []byte
+		switch {
+		case prev != nil && r.Chance(1, 3): // one-byte neighbour of the previous one
+			b = append([]byte(nil), prev...)
+			if len(b) > 0 {
+				p := []int{0, len(b) - 1, r.Intn(len(b))}[r.Intn(3)]
+				b[p] ^= byte(1 << uint(r.Intn(8)))
+			}
+		case prev != nil && r.Chance(1, 4): // one byte longer / shorter
+			b = append([]byte(nil), prev...)
+			if r.Bool() || len(b) == 0 {
+				b = append(b, byte(r.Intn(256)))
+			} else {
+				b = b[:len(b)-1]
+			}
+		case r.Bool():
+			b = r.Bytes(edge[r.Intn(len(edge))])
+		default:
+			b = r.Bytes(r.Intn(maxCircuitID + 3))
+		}
+		prev = b
+		c.Ops = append(c.Ops, Op{K: "hash", B: b})
+	}
+	return c
 }
 
 func idxKeyShape(kind int, a, b int, r *vh.Rng) [][2]int {
@@ -512,6 +605,18 @@ func genStreams(r *vh.Rng, thorough bool) []stream {
 		fam = append(fam, toCase(c, run(c)))
 	}
 	add("defect", "ckey", fam, nil)
+	bg, bd := ckeyBoundaryFamilies(r.Fork(), thorough)
+	var bgc, bdc []vh.Case
+	for _, c := range bg {
+		bgc = append(bgc, toCase(c, run(c)))
+	}
+	for _, c := range bd {
+		bdc = append(bdc, toCase(c, run(c)))
+	}
+	add("guarded", "ckey", bgc, map[string]interface{}{"all_lengths": true, "component": "ebpf.HashCircuitID / MakeCircuitIDKey",
+		"enumeration": "every length 0..66 (MAX_CIRCUIT_ID_LEN + 2) of each stem, with the neighbours that differ in exactly the first, a middle and the last byte; hashes and keys in separate cases"})
+	add("defect", "ckey", bdc, nil)
+	add("guarded", "ckey", rndCases(rnd, func() Case { return genCHash(r.Fork(), 12+r.Intn(20)) }), nil)
 	add("guarded", "ckey", rndCases(rnd, func() Case { return genCKey(r.Fork(), true, 12+r.Intn(20)) }), nil)
 	add("defect", "ckey", rndCases(rnd, func() Case { return genCKey(r.Fork(), false, 12+r.Intn(20)) }), nil)
 	// --- index stores
@@ -537,6 +642,21 @@ func genStreams(r *vh.Rng, thorough bool) []stream {
 			add("guarded", "idx", rndCases(rnd/2, func() Case { return genIdx(r.Fork(), kind, maxOps, false) }), nil)
 		}
 	}
+	// --- subscriber.Manager, one critical section per step: every interleaving of two concurrent calls, random schedules of up to four
+	var pairs []vh.Case
+	for _, withIP := range []bool{false, true} {
+		seen := map[string]bool{}
+		for _, c := range mgrPairs(withIP) {
+			vc := toCase(c, run(c))
+			if !seen[vc.Coq] { // merges that differ only in steps the code skips give the same trace
+				seen[vc.Coq] = true
+				pairs = append(pairs, vc)
+			}
+		}
+	}
+	add("interleave", "mgr", pairs, map[string]interface{}{"exhaustive": true, "store": "subscriber.Manager",
+		"enumeration": "every unordered pair of calls out of {Create(MAC of session 0), Create(new MAC), Assign(session 0, free address), Assign(session 0, the bystander's address), Assign(bystander), Terminate(session 0), Terminate(bystander), Activate(session 0), Assign with a failing allocator} x every order-preserving merge of their critical sections, on two initial states (session 0 with / without an address)"})
+	add("interleave", "mgr", rndCases(4*rnd, func() Case { return genMgrRandom(r.Fork(), maxOps) }), nil)
 	acc["guarded"].extra["guard"] = "VLAN allocator and QinQ mapper: every history; sessions: every live session has its own MAC; circuit-ids: at most 32 bytes, not ending in a zero byte; stores: fresh ids, secondary keys no other live entity holds, updates keep the indexed fields or move to unheld keys (MemoryAllocationStore: every history)"
 	acc["defect"].extra["note"] = "histories outside the guards: two sessions from one MAC, long / zero-terminated circuit-ids, duplicate secondary keys and indexed-field updates in the stores"
 	var out []stream
